@@ -164,6 +164,7 @@ def run(ctx):
     # core fragment of Rt/TokRound.v (theorem parse_core_doc): deep nesting, scalars of every kind
     corefrag.run(ctx, ctx.scale(150, 3000), hm)
     corefrag.run3(ctx, ctx.scale(150, 3000), hm)
+    corefrag.run4(ctx, ctx.scale(150, 3000), hm)
     from octave_mcp.core.parser import parse_with_warnings
     from octave_mcp.mcp.validate import ValidateTool
     from octave_mcp.mcp.write import WriteTool
